@@ -1367,6 +1367,21 @@ class PairTA:
         return z
 
 
+class PairTH(PairTA):
+    """real Client (threads) <-> real AsyncServer behind the real aiohttp
+    adapter and web server (bridge loop)."""
+    kind = 'TH'
+
+    def __init__(self, server_kwargs=None, policy='fifo', seed=0,
+                 yield_prob=0.0, **client_kwargs):
+        from vf.simh import SimH
+        self.sched = vsched.Sched(policy, seed, None, 0.0)
+        self.loop = make_bridge_loop(self.sched)
+        self.sim = SimH(server_kwargs, loop=self.loop)
+        self.peer = PeerTA(self.sim, self.sched)
+        self.cli = CliT(self.sched, self.peer, **client_kwargs)
+
+
 class PairAT:
     """real AsyncClient (bridge loop) <-> real Server (threads)."""
     kind = 'AT'
@@ -1404,4 +1419,4 @@ class PairAT:
 
 
 PAIRS = {'TT': PairTT, 'AA': PairAA, 'TA': PairTA, 'AT': PairAT,
-         'AH': PairAH}
+         'AH': PairAH, 'TH': PairTH}
